@@ -46,6 +46,13 @@ def gen_cases(tier, seed):
     for tag, s in seeds.all_seeds():
         for o in opt_variants(r, 4):
             cases.append({'shape': 'seed:' + tag, 'src': s, 'opts': o})
+        # renaming next to the statement-rewriting transforms: every transform on, plus class-attribute annotation removal (off by default)
+        for rg in (False, True):
+            o = options.all_on()
+            o['remove_class_attribute_annotations'] = True
+            o['rename_globals'] = rg
+            o['remove_asserts'] = o['remove_debug'] = False
+            cases.append({'shape': 'seed:' + tag, 'src': s, 'opts': o})
     for i in range(120 if tier == "quick" else 1500):
         s, _ = modgen.generate(seed, 20000 + i, guarded=(i % 2 == 0), size=8 + (i % 3) * 6)
         for o in opt_variants(r, 2):
